@@ -36,6 +36,7 @@ def drive(mod, fn, args, script, gen_script=None):
     mod.SCRIPT[:] = list(script)
     del mod.LOG[:]
     del mod.BLOG[:]
+    mod.LATEST.clear()
     yields = []
     if gen_script is None:
         out = outcome_of(lambda: fn(*args))
